@@ -167,7 +167,7 @@ pub fn execute(ctx: &mut Ctx, s: &Scenario) -> Outcome {
             return out;
         }
     };
-    out.mixin(tag(&format!("{}", bytes.len())));
+    out.mixin(tag(&format!("{}:{}", bytes.len(), tag(&String::from_utf8_lossy(&bytes)))));
     // writer -> simulated disk -> durable image
     let mut d = dspec.clone();
     let prog_len = disk::program(&d, bytes.len()).len();
